@@ -12,5 +12,11 @@ LineOK(e) ==
   /\ (e.clirc = 0 /\ ~e.err /\ ~e.panic) \/ Reject(l, "binary or library failed")
   /\ e.cli = e.out \/ Reject(l, "binary output differs from library output under the documented options")
   /\ e.cli # e.dflt \/ Reject(l, "flag has no effect on a discriminating input")
-Conforms == l <= N => LineOK(Trace[l])
+TypeLineOK(e) ==
+  /\ TypeArgOK(e) \/ Reject(l, "type case does not follow the documented table")
+  /\ (e.clirc = 0 /\ ~e.err /\ ~e.panic) \/ Reject(l, "binary or library failed")
+  /\ e.cli = e.out \/ Reject(l, "binary output differs from the documented minifier's output")
+  /\ e.cli # e.in \/ Reject(l, "documented type is not minified")
+IsTypeCase(e) == "ty" \in DOMAIN e.exp
+Conforms == l <= N => (IF IsTypeCase(Trace[l]) THEN TypeLineOK(Trace[l]) ELSE LineOK(Trace[l]))
 =============================================================================
